@@ -153,6 +153,15 @@ class StaticWalk:
             else:
                 tfdt = frag.tfdt[1]
             dur = sum(ib.sample_durations(frag.trun, frag.tfhd, sf.trex))
+            # the i-th enumerated segment carries the media of the i-th stored segment
+            import hashlib
+            ks = self.index.payload[key].get(hashlib.sha1(body[frag.mdat.body:frag.mdat.end]).digest(), [])
+            res.count('chain.payloads_compared')
+            if i not in ks:
+                res.violation('static-segment-payload-is-not-the-stored-segment',
+                              f'{label} {what}: entry {i} carries the payload of stored segment {[k + 1 for k in ks] or "none"} '
+                              f'({frag.mdat.end - frag.mdat.body} bytes)', rp)
+                return
             if i == 0 and tfdt != first:
                 res.violation('static-first-segment-not-at-first-decode-time',
                               f'{label} {what}: tfdt {tfdt}, file starts at {first}', rp)
